@@ -632,6 +632,7 @@ func build(tier string) []explore.Scenario {
 func main() {
 	explore.Main(explore.Config{
 		Property:  "C18",
+		Level:     "exploration",
 		Technique: "small-scope exhaustive input enumeration: every metadata variant x spec kind through every encoding (round trip), and every truncation / single-byte substitution / short byte string through every decoder (totality, tamper detection)",
 		Rule:      "round trip: per-field exhaustive over a 29-string hostile alphabet, all key x value pairs for labels and annotations, 4 spec kinds, 10 encodings; totality: all truncations and 6 substitutions per offset of 6 seed encodings per codec + all byte strings of length <= 3 over 5 values; non-trivial = distinct resources / inputs rejected by the decoder",
 		Assume:    []string{"small-scope hypothesis: inputs outside the stated alphabets and sizes are not covered", "finalizer lists are built with Add (duplicates via Set are outside the alphabet)", "version texts that are accepted but do not round-trip (e.g. \"-1\") are reported, not asserted: reachable versions are 1,2,..."},
